@@ -44,7 +44,10 @@ CLAIMED = {
             "(C04_c_wps_euclidean_kernel_as_written; CWpsCanon/Kernel/Tie/Value/Spec/Final.v + *Eu.v); "
             "C04_c_fill_then_expand_as_written: dtw_expand_wps_slice regenerated whole (Gen_cexpw.v) copies that array "
             "into the block of the full matrix for every slice - cell (i-rb, j-cb) is the specification cell (i, j), "
-            "border cells the compact array does not keep excepted (F23), every access in range (CExpW.v); dtw.warping_paths is compared with the as-written model and with the extracted "
+            "border cells the compact array does not keep excepted (F23), every access in range (CExpW.v); "
+            "C04_c_wps_value_is_the_distance_kernels_value: the regenerated warping-paths kernel, called with the struct "
+            "the regenerated dtw_wps_parts returns, and the regenerated distance kernel return the same value for the "
+            "same settings; dtw.warping_paths is compared with the as-written model and with the extracted "
             "regenerated fill on every cell, the C full matrix, "
             "compact+expand and slice expansion cell-wise with the specification model applying the property's "
             "two freedoms",
